@@ -282,6 +282,10 @@ class Exec(ExprMixin, StmtMixin, CallMixin):
             mod, cls, fn, src = self.prog.find(ct.qual)
             self.cur_module, self.cur_class = mod, cls
         self.fn = fn
+        self.roles = {}
+        last = fn.body[-1] if fn.body else None
+        if isinstance(last, ast.Return) and isinstance(last.value, ast.Name):
+            self.roles['_returned'] = last.value.id      # the variable the function returns at its end (accumulators of counting loops)
         self.number_loops(fn)
         self.body = fn.body
         frag = ct.ghost.get('fragment')
